@@ -111,9 +111,23 @@ def _body(tdef, case):
     return ok(nontrivial=nontrivial, key=key_of(inst, "space") + str(lowp), labels=labels, sample=sample)
 
 
+def _container_body(case):
+    """Container arguments: C12's nested values and access programs; only the structure / space verdicts belong to C05."""
+    from . import c12
+
+    out = c12.program_body(case)
+    if out.status == "fail" and out.kind not in ("wrong_space", "unexpected_exception"):
+        return ok(nontrivial=False, key=None, labels=["container", "value_issue_left_to_C12"], sample=out.sample)
+    if out.status == "fail":
+        out.bucket = "C05|" + (out.bucket or "container")
+    return out
+
+
 def tests():
-    return [Test("space:" + name, partial(_body, t), quick=100 * t.weight, thorough=1200 * t.weight, shard_size=300)
-            for name, t in sorted(TEMPLATES.items())]
+    out = [Test("space:" + name, partial(_body, t), quick=100 * t.weight, thorough=1200 * t.weight, shard_size=300)
+           for name, t in sorted(TEMPLATES.items())]
+    out.append(Test("space:containers", _container_body, quick=1500, thorough=15000, shard_size=250))
+    return out
 
 
 PROP = Prop("C05", tests(), RULE, assumptions=[
